@@ -176,6 +176,24 @@ Theorem C13_non_idempotent_not_speculated : forall p k sh ls s,
 Proof. exact non_idempotent_not_speculated_lemma. Qed.
 Print Assumptions C13_non_idempotent_not_speculated.
 
+(* ... stated on what the application wrote: a batch with a non-idempotent entry at ANY position, a query
+   whose Idempotent(false) override or whose cluster default says no.  IsIdempotent is computed by the
+   model from these inputs (Batch.IsIdempotent = every entry; Session.Query default, Query.Idempotent
+   override), and the correspondence cases carry the inputs, not the implementation's answer. *)
+Theorem C13_marked_not_speculated : forall p src k sh ls s,
+  match src with
+  | IBatch es => In false es
+  | IQuery d ov => ov = Some false \/ (ov = None /\ d = false)
+  end ->
+  run_lts p (init (is_idempotent src) k sh) ls = Some s ->
+  (length (g_th s) <= 1)%nat /\ g_chan s = None /\ g_first s = None.
+Proof. exact marked_not_speculated_lemma. Qed.
+Print Assumptions C13_marked_not_speculated.
+
+Theorem C13_batch_idempotent_iff_all : forall es, batch_idempotent es = true <-> Forall (fun e => e = true) es.
+Proof. exact batch_idempotent_spec. Qed.
+Print Assumptions C13_batch_idempotent_iff_all.
+
 (* A query not marked idempotent is sent once -- PROVIDED the policy never answered "retry" / "retry on
    the next host".  The unconditional statement (doc.go: non-idempotent queries are not eligible for
    retrying) is false for the faithful model and for the code: Refuted.C13_non_idempotent_not_retried_refuted,
